@@ -254,3 +254,16 @@ def kwarg(call, name, pos=None):
     if pos is not None and len(call[2]) > pos:
         return call[2][pos]
     return None
+
+
+def show_roles(c, e, env):
+    """Print an expression with role names in place of the (run-dependent) loop items they are bound to."""
+    e = c.norm(e)
+    inv = sorted(((c.norm(v), k) for k, v in env.items()), key=lambda kv: -len(ir.show(kv[0])))
+
+    def f(x):
+        for v, k in inv:
+            if x == v:
+                return ('name', k)
+        return None
+    return ir.show(ir.subst(e, f))
